@@ -9,4 +9,6 @@ INVARIANT LoadIsCommitted
 INVARIANT ReferencedExist
 INVARIANT CleanBucketsDurable
 INVARIANT NoDuplicateHomes
+PROPERTY MutationsOK
+VIEW MCView
 CHECK_DEADLOCK FALSE
